@@ -267,7 +267,7 @@ class Swapped(object):
         return False
 
 
-HANG_TIMEOUT = 10
+HANG_TIMEOUT = 30
 
 
 def kill_descendants():
@@ -686,7 +686,7 @@ def run_overlap(case):
     go = {a: threading.Event() for a in all_acts}
     ack = queue.Queue()
     tasks = {}
-    T = 10
+    T = 30
 
     def mk(a):
         def fn():
